@@ -448,7 +448,8 @@ pub fn run_check(prop: &dyn Property, tier: Tier, seed: u64) -> i32 {
                         rng_algorithm: RngAlgorithm::ChaCha,
                         failure_persistence: None,
                         max_shrink_iters: if tier == Tier::Quick { 250 } else { 600 },
-                        max_shrink_time: 0,
+                        // failures whose every re-evaluation is expensive (time-outs) must not shrink for hours
+                        max_shrink_time: if tier == Tier::Quick { 60_000 } else { 180_000 },
                         max_global_rejects: 0,
                         max_local_rejects: 0,
                         verbose: 0,
